@@ -2,7 +2,8 @@
 """C09 - document-wide lookups always agree with the current tree.
 
 proof:          lean/OdfModel/Props/C09.lean about lean/OdfModel/DomDoc.lean (node heap of C08 + ownerDocument +
-                element_dict / _styles_dict / _styles_ooo_fix, the mutators with their index maintenance)
+                element_dict / _styles_dict / _styles_ooo_fix, the mutators with their index maintenance);
+                lean/OdfModel/Props/C09Queries.lean: the queries are read-only (any battery of them, the tail of load())
 correspondence: every history runs in lock-step on a real OpenDocumentText and on the driver drv_domdoc; after EVERY
                 step the whole state is compared: links / children / attributes / ownerDocument of every node, and the
                 three dictionaries (element lists in their order); and the answers of a battery of queries
@@ -11,6 +12,12 @@ oracle:         (also: 250 histories over TWO documents with nodes moved straigh
                 after every step with doc.getElementsByType (multisets of object identities, each exactly once),
                 element.getElementsByType (filter over the subtree), doc.getStyleByName (search of the attached styles
                 under office:styles / office:automatic-styles; None when absent).  Also on documents obtained by load().
+                EVERY type that occurs in the tree (office:body, office:text, office:document... included; factories are
+                derived from the qualified names met in the traversal) is asked for after every step, BEFORE the
+                name lookups of the battery (getStyleByName on a document without registered styles rebuilds the index).
+                Packages: documents of all seven classes with embedded objects (objects in objects, an office:document
+                inline in a draw:object), rendered, written, loaded (also with optional parts left out), edited after the
+                load, written and loaded again; after every step every document of the family is swept in that way.
 """
 import io, json
 import dom_common as D
@@ -51,7 +58,45 @@ class NameTok(object):
 
 
 def qname_of_factory(fname):
+    if fname.startswith('{'):
+        return parse_qname(fname)
     return D.factory(fname)(check_grammar=False).qname
+
+
+def parse_qname(fname):
+    """'{namespace}local' -> (namespace, local)"""
+    ns, local = fname[1:].split('}', 1)
+    return (ns, local)
+
+
+def probe_factory(qname):
+    """a factory for ANY qualified name: the queries take a plain function that accepts check_grammar and builds an element
+    (the factories of odf.office / odf.text ... are exactly that); with it every type that occurs in a tree can be asked for,
+    also the rarely asked skeleton types (office:body, office:text, office:document...) and foreign elements of a loaded file"""
+    from odf.element import Element
+    def probe(**args):
+        return Element(qname=qname, **args)
+    return probe
+
+
+def fac(fname):
+    """factory of an op: a key of D.FACTORIES, or '{namespace}local' for any other type"""
+    if fname.startswith('{'):
+        return probe_factory(parse_qname(fname))
+    return D.factory(fname)
+
+
+def qkey(q):
+    return (q[0] or u'', q[1] or u'')
+
+
+def fname_of(q):
+    return u'{%s}%s' % (q[0] or u'', q[1])
+
+
+# skeleton types of a document: asked in lock-step with the model, one per step in turn
+SKEL_QUERY = [fname_of((D.OFFICENS, l)) for l in (u'body', u'text', u'document', u'meta', u'settings', u'scripts',
+                                                   u'font-face-decls', u'master-styles', u'automatic-styles', u'styles')]
 
 
 class DocWorld(D.World):
@@ -138,13 +183,13 @@ class DocWorld(D.World):
             if k == 'new' and op[1] == 'e' and ans == 'ok':
                 self.say_attrs(op[2], self.nodes[op[2]])          # attributes a factory sets by default (text.A: xlink:type)
         elif k == 'bytype':
-            f = D.factory(op[1])
+            f = fac(op[1])
             res = doc.getElementsByType(f)
             ans = 'ok [%s]' % ','.join(str(self.nid(e)) for e in res)
             self.say('bytype %d' % self.qntok(qname_of_factory(op[1])), ans)
             self.last_result = list(res)
         elif k == 'elbytype':
-            f = D.factory(op[2])
+            f = fac(op[2])
             res = self.nodes[op[1]].getElementsByType(f)
             ans = 'ok [%s]' % ','.join(str(self.nid(e)) for e in res)
             self.say('elbytype %d %d' % (op[1], self.qntok(qname_of_factory(op[2]))), ans)
@@ -242,6 +287,50 @@ def multiset(nodes):
     return sorted(id(n) for n in nodes)
 
 
+def agree(res, want, top):
+    """the answer of a document-level query against the attached elements of that type: every one exactly once, nothing
+    else.  Only the top node itself (doc.topnode, never queried before) may be listed or left out: the document indexes the
+    elements BELOW its top node when they are attached; the top node enters the index only through a rebuild from the top
+    (lean: Coherent.mem_iff speaks of x != top, Coherent.top_mem of the top)."""
+    a = multiset(res)
+    if a == multiset(want):
+        return True
+    return any(e is top for e in want) and a == multiset([e for e in want if e is not top])
+
+
+def sweep_document(doc, weak=False, element_level=True):
+    """the property for EVERY type: each qualified name that occurs in the tree below doc.topnode (and each one the index
+    still knows of) is asked for with doc.getElementsByType and compared with the traversal; with element_level also
+    doc.topnode.getElementsByType.  Read-only, and run before any name lookup (getStyleByName on a document without
+    registered styles rebuilds the whole index and would repair what is to be observed).
+    Returns None or (signature, detail)."""
+    top = doc.topnode
+    att = attached_elements(doc)
+    by = {}
+    for e in att:
+        by.setdefault(e.qname, []).append(e)
+    asked = set(by)
+    for q in list(getattr(doc, 'element_dict', None) or {}):       # only WHICH types are asked; what is expected comes from the tree
+        if isinstance(q, tuple) and len(q) == 2: asked.add(q)
+    for q in sorted(asked, key=qkey):
+        want = by.get(q, [])
+        res = list(doc.getElementsByType(probe_factory(q)))
+        if weak:
+            ok = len(set(id(e) for e in res)) == len(res) and all(any(e is x for x in want) for e in res)
+        else:
+            ok = agree(res, want, top)
+        if not ok:
+            stray = [e for e in res if not any(e is x for x in want)]
+            return ('index-bytype-every-type', 'doc.getElementsByType(<%s>) returns %d element(s) (%d of them not attached / not of that type, %d distinct), '
+                    'the tree below doc.topnode holds %d' % (q[1], len(res), len(stray), len(set(id(e) for e in res)), len(want)))
+        if element_level and q in by:
+            sub = list(top.getElementsByType(probe_factory(q)))
+            if multiset(sub) != multiset(want):
+                return ('index-element-every-type', 'doc.topnode.getElementsByType(<%s>) returns %d element(s), the tree holds %d'
+                        % (q[1], len(sub), len(want)))
+    return None
+
+
 class Oracle(object):
     def __init__(self, w):
         self.w = w
@@ -281,10 +370,19 @@ class Oracle(object):
                 self.fail('index-bytype-after-clear', idx, 'doc.getElementsByType(%s) = %s, attached in the tree: %s'
                           % (fname, [self.w.nid(e) for e in res], [self.w.nid(e) for e in want]))
             return
-        if multiset(res) != multiset(want):
+        if not agree(res, want, self.w.doc.topnode):
             w = self.w
             self.fail('index-bytype', idx, 'doc.getElementsByType(%s) = %s, attached in the tree: %s'
                       % (fname, sorted(str(w.nid(e)) for e in res), sorted(str(w.nid(e)) for e in want)))
+
+    def sweep(self, idx, when):
+        """every type that occurs in the document, before the battery (whose name lookups may rebuild the index)"""
+        if self.cleared or self.failed:
+            return            # after the public clear_caches() the index is legitimately incomplete; a query on the emptied
+                              # index would rebuild it behind the model's back
+        f = sweep_document(self.w.doc, element_level=(idx % 4 == 0 or when == 'load'))
+        if f:
+            self.fail(f[0], idx, '%s: %s' % (when, f[1]))
 
     def check_elbytype(self, idx, i, fname, res):
         q = qname_of_factory(fname)
@@ -340,10 +438,13 @@ class History(object):
             orc.fail('unexpected-exception', idx, '%s answered %s' % (op, ans))
         orc.note_state()
         self.check_query(idx, op)
+        if op[0] not in ('new', 'cache'):
+            orc.sweep(idx, 'load' if op[0] == 'load' else 'after %s' % op[0])
         if battery and not orc.failed:
             core = [f for f in QUERY if f not in NAMESAKES]
-            for f in core + [NAMESAKES[idx % 4], NAMESAKES[(idx + 1) % 4]]:
+            for f in core + [NAMESAKES[idx % 4], NAMESAKES[(idx + 1) % 4], SKEL_QUERY[idx % len(SKEL_QUERY)]]:
                 q = ['bytype', f]; w.do(q); self.check_query(idx, q)
+            q = ['elbytype', w.nid(w.doc.topnode), SKEL_QUERY[(idx + 1) % len(SKEL_QUERY)]]; w.do(q); self.check_query(idx, q)
             for n in NAMES:
                 q = ['style', n]; w.do(q); self.check_query(idx, q)
             els = [i for i in sorted(w.nodes) if w.nodes[i].nodeType == 1]
@@ -696,6 +797,11 @@ class TwoDocs(object):
     def check(self, idx, op, ans):
         if ans != 'ok':
             self.failed = ('legal-edit-refused', idx, '%s answered %s' % (op, ans)); return
+        for k, d in enumerate(self.docs):                        # every type that occurs, before any name lookup
+            f = sweep_document(d)
+            if f:
+                self.failed = (f[0] + '-two-documents', idx, 'after %s: document %d: %s' % (op, k, f[1]))
+                return
         for k, d in enumerate(self.docs):
             att = attached_elements(d)
             for f in self.QUERY2:
@@ -764,6 +870,295 @@ def twodocs_histories(chk, n):
             chk.fail(sig, {'twodocs': cur}, run_twodocs(cur).failed[2] if run_twodocs(cur).failed else t.failed[2])
 
 
+# ---------------------------------------------------------------------------------------------
+# packages: documents of every class with embedded objects (objects inside objects), built, rendered, saved, loaded
+# (also with parts of the package left out), edited after the load, saved and loaded again (oracle only: the reader and
+# the writer are other layers).  After every step EVERY document of the family - the document and all its objects - is
+# swept: every type that occurs in its tree is asked for.  Name lookups are steps of their own, so that the sweep after
+# a load sees the index as load() left it.
+PK_KINDS = {'text': 'OpenDocumentText', 'textmaster': 'OpenDocumentTextMaster', 'spreadsheet': 'OpenDocumentSpreadsheet',
+            'presentation': 'OpenDocumentPresentation', 'drawing': 'OpenDocumentDrawing', 'chart': 'OpenDocumentChart',
+            'image': 'OpenDocumentImage'}
+PK_FACS = {'P': ('text', 'P'), 'Span': ('text', 'Span'), 'H': ('text', 'H'), 'Section': ('text', 'Section'), 'List': ('text', 'List'),
+           'ListItem': ('text', 'ListItem'), 'A': ('text', 'A'), 'DrawA': ('draw', 'A'), 'Table': ('table', 'Table'),
+           'TableRow': ('table', 'TableRow'), 'TableCell': ('table', 'TableCell'), 'Frame': ('draw', 'Frame'), 'G': ('draw', 'G'),
+           'Page': ('draw', 'Page'), 'Chart': ('chart', 'Chart'), 'PlotArea': ('chart', 'PlotArea'), 'ChartTitle': ('chart', 'Title'),
+           'Object': ('draw', 'Object'),
+           # types of the document skeleton as ordinary content further down (draw:object may hold a whole office:document)
+           'Document': ('office', 'Document'), 'Body': ('office', 'Body'), 'OfficeText': ('office', 'Text'), 'Styles': ('office', 'Styles'),
+           'Style': ('style', 'Style'), 'Meta': ('office', 'Meta')}
+PK_TEXTY = ('P', 'Span', 'H', 'A')
+PK_RENDER = ['xml', 'contentxml', 'stylesxml', 'metaxml', 'settingsxml', 'write', 'save', 'mediatype']
+PK_PARTS = [u'styles.xml', u'meta.xml', u'settings.xml']
+PK_NAMES = [u'A', u'B', u'MA', u'P1', u'Nope', u'my style']
+
+
+def pk_factory(name):
+    import importlib
+    m, f = PK_FACS[name]
+    return getattr(importlib.import_module('odf.' + m), f)
+
+
+def pk_random_tree(r, budget, depth=0):
+    out = []
+    while budget[0] > 0 and r.random() < (0.85 if depth == 0 else 0.55):
+        budget[0] -= 1
+        f = r.choice(sorted(PK_FACS) + ['P', 'P', 'Span', 'Frame', '@object', '@object', '@inline'])
+        if f in ('@object', '@inline'):
+            out.append([f, r.randint(0, 3)])
+        else:
+            out.append([f, pk_random_tree(r, budget, depth + 1) if depth < 3 else []])
+    return out
+
+
+def pk_random_spec(r, depth=0):
+    spec = {'kind': r.choice(sorted(PK_KINDS)), 'tree': pk_random_tree(r, [r.randint(0, 9)]),
+            'styles': [[r.choice(['styles', 'automatic']), r.choice(PK_NAMES[:4])] for _ in range(r.choice([0, 0, 1, 2, 3]))],
+            'objects': []}
+    if depth < 2:
+        for _ in range(r.choice([0, 1, 1, 2] if depth == 0 else [0, 0, 1])):
+            spec['objects'].append(pk_random_spec(r, depth + 1))
+    return spec
+
+
+def pk_random_steps(r):
+    steps = []
+    def some(n):
+        for _ in range(n):
+            k = r.choice(['render', 'render', 'edit', 'edit', 'edit', 'lookup'])
+            if k == 'render': steps.append(['render', r.choice(PK_RENDER), r.randint(0, 5)])
+            elif k == 'lookup': steps.append(['lookup', r.choice(PK_NAMES), r.randint(0, 5)])
+            else: steps.append(['edit', r.choice(['add', 'add', 'rm', 'move', 'insb', 'addobject']), r.randint(0, 5), r.randint(0, 999), r.randint(0, 999)])
+    some(r.randint(0, 3))
+    for _ in range(r.choice([1, 1, 2, 3])):
+        steps.append(['reload', [x for x in PK_PARTS if r.random() < 0.2]])
+        some(r.randint(0, 4))
+    return steps
+
+
+class Package(object):
+    def __init__(self, spec):
+        self.failed = None
+        self.step_index = -1
+        self.keep = []               # removed nodes stay alive (object identities are compared)
+        self.doc = self.build(spec)
+
+    def build(self, spec):
+        import odf.opendocument as od
+        from odf import style
+        doc = getattr(od, PK_KINDS[spec['kind']])()
+        subs = [self.build(s) for s in spec['objects']]
+        hrefs = [doc.addObject(s) for s in subs]
+        for where, name in spec['styles']:
+            st = style.Style(name=name, family=u'paragraph')
+            (doc.styles if where == 'styles' else doc.automaticstyles).addElement(st)
+        self.fill(doc.body.firstChild, spec['tree'], hrefs)
+        return doc
+
+    def fill(self, parent, tree, hrefs):
+        for f, sub in tree:
+            if f == '@object':
+                fr = pk_factory('Frame')(check_grammar=False)
+                parent.addElement(fr, check_grammar=False)
+                ob = pk_factory('Object')(check_grammar=False)
+                if hrefs: ob.setAttrNS(u'http://www.w3.org/1999/xlink', u'href', hrefs[sub % len(hrefs)])
+                fr.addElement(ob, check_grammar=False)
+            elif f == '@inline':
+                n = parent
+                for g in ('Frame', 'Object', 'Document', 'Body', 'OfficeText', 'P'):
+                    e = pk_factory(g)(check_grammar=False)
+                    n.addElement(e, check_grammar=False); n = e
+                n.addText(u'inline %d' % sub, check_grammar=False)
+            else:
+                e = pk_factory(f)(check_grammar=False)
+                if f == 'Style': e.setAttrNS(D.STYLENS, u'name', u'A')
+                parent.addElement(e, check_grammar=False)
+                if f in PK_TEXTY: e.addText(u'x', check_grammar=False)
+                self.fill(e, sub, hrefs)
+
+    # ---- the family of a document: itself and its objects, by position
+    def family(self):
+        out = []
+        def walk(d, path, depth):
+            out.append((path, d))
+            if depth > 6: return
+            for k, c in enumerate(getattr(d, 'childobjects', [])):
+                walk(c, path + [k], depth + 1)
+        walk(self.doc, [], 0)
+        return out
+
+    def fail(self, sig, detail):
+        if self.failed is None:
+            self.failed = (sig, self.step_index, detail)
+
+    def sweep(self, when):
+        for path, d in self.family():
+            f = sweep_document(d)
+            if f:
+                self.fail(f[0] + '-package', '%s, %s: %s' % (when, 'the document' if not path else 'embedded object %s'
+                                                              % '/'.join(str(k + 1) for k in path), f[1]))
+                return
+
+    def pick(self, k):
+        fam = self.family()
+        return fam[k % len(fam)]
+
+    def step(self, idx, st):
+        self.step_index = idx
+        k = st[0]
+        if k == 'render':
+            path, d = self.pick(st[2])
+            what = st[1]
+            if what == 'xml': d.xml()
+            elif what == 'write': d.write(io.BytesIO())
+            elif what == 'save': self.doc.save(io.BytesIO())
+            elif what == 'mediatype': d.getMediaType()
+            else: getattr(d, what)()
+        elif k == 'lookup':
+            path, d = self.pick(st[2])
+            reg = {}
+            for e in attached_elements(d):
+                if e.qname == QSTYLE and e.parentNode is not None and e.parentNode.qname in REG_PARENTS:
+                    reg.setdefault(e.attributes.get((D.STYLENS, u'name')), []).append(e)
+            for nm in [st[1]] + sorted(n for n in reg if n is not None)[:3]:
+                res = d.getStyleByName(nm)
+                want = reg.get(ncname(nm), [])
+                if (not want and res is not None) or (want and not any(res is e for e in want)):
+                    self.fail('style-lookup-package', 'document %s .getStyleByName(%r) = %s, attached styles of that name: %d'
+                              % (path, nm, 'None' if res is None else 'a style named %r, %s' % (
+                                  res.attributes.get((D.STYLENS, u'name')), 'attached' if attached_to(res, d.topnode) else 'DETACHED'), len(want)))
+                    return
+        elif k == 'edit':
+            path, d = self.pick(st[2])
+            els = attached_elements(d)
+            free = [e for e in els if e.parentNode is not None and e.parentNode is not d.topnode and e.parentNode is not d.body]
+            a = els[st[3] % len(els)]
+            if st[1] == 'add':
+                e = pk_factory(['P', 'Span', 'Body', 'Style', 'Frame'][st[4] % 5])(check_grammar=False)
+                a.addElement(e, check_grammar=False)
+            elif st[1] == 'addobject':
+                import odf.opendocument as od
+                sub = od.OpenDocumentChart()
+                sub.chart.addElement(pk_factory('Chart')(check_grammar=False), check_grammar=False)
+                d.addObject(sub)
+            elif free:
+                b = free[st[4] % len(free)]
+                if st[1] == 'rm':
+                    self.keep.append(b); b.parentNode.removeChild(b)
+                elif not attached_to(a, b):                      # a is not inside b
+                    if st[1] == 'move': a.appendChild(b)
+                    else: a.insertBefore(b, a.firstChild)
+        elif k == 'reload':
+            from odf.opendocument import load
+            buf = io.BytesIO()
+            self.doc.write(buf)
+            data = buf.getvalue()
+            self.sweep('after step %d, the written family before the load' % idx)      # a serialisation leaves the index alone
+            if self.failed: return
+            if st[1]:
+                data = strip_parts(data, st[1])
+            self.keep.append(self.doc)
+            self.doc = load(io.BytesIO(data))
+        else:
+            raise ValueError(st)
+        if not self.failed:
+            self.sweep('after step %d %s' % (idx, st[:2]))
+
+
+def strip_parts(data, parts):
+    """the same package without some of its optional parts (top level only), written with zipfile: the files and their
+    manifest entries are left out"""
+    import zipfile, re
+    zin = zipfile.ZipFile(io.BytesIO(data))
+    out = io.BytesIO()
+    zout = zipfile.ZipFile(out, 'w', zipfile.ZIP_DEFLATED)
+    for info in zin.infolist():
+        if info.filename in parts: continue
+        body = zin.read(info.filename)
+        if info.filename == 'META-INF/manifest.xml':
+            text = body.decode('utf-8')
+            for pth in parts:
+                text = re.sub(r'<manifest:file-entry[^>]*manifest:full-path="%s"[^>]*/>' % re.escape(pth), '', text)
+            body = text.encode('utf-8')
+        zout.writestr(info, body, zipfile.ZIP_STORED if info.filename == 'mimetype' else zipfile.ZIP_DEFLATED)
+    zout.close()
+    return out.getvalue()
+
+
+def run_package(spec, steps):
+    p = Package(spec)
+    p.sweep('as built')
+    for idx, st in enumerate(steps):
+        if p.failed: break
+        p.step(idx, st)
+    return p
+
+
+def shrink_package(spec, steps, sig):
+    """drop steps, objects, content and styles while the same kind of failure remains"""
+    import copy
+    def fails(sp, sts):
+        try:
+            p = run_package(sp, sts)
+        except Exception:
+            return None
+        if p.failed and p.failed[0] == sig:
+            return sts[:p.failed[1] + 1]
+        return None
+    cur = fails(spec, steps)
+    if cur is None: return spec, steps
+    steps = cur
+    changed = True
+    while changed:
+        changed = False
+        for i in range(len(steps) - 1, -1, -1):
+            r = fails(spec, steps[:i] + steps[i + 1:])
+            if r is not None:
+                steps = r; changed = True; break
+    def variants(sp):
+        if sp['tree']:
+            v = copy.deepcopy(sp); v['tree'] = []; yield v
+            for i in range(len(sp['tree'])):
+                v = copy.deepcopy(sp); del v['tree'][i]; yield v
+        if sp['styles']:
+            v = copy.deepcopy(sp); v['styles'] = []; yield v
+        for i in range(len(sp['objects'])):
+            v = copy.deepcopy(sp); del v['objects'][i]; yield v
+            for sub in variants(sp['objects'][i]):
+                v = copy.deepcopy(sp); v['objects'][i] = sub; yield v
+    changed = True
+    while changed:
+        changed = False
+        for v in variants(spec):
+            r = fails(v, steps)
+            if r is not None:
+                spec = v; steps = r; changed = True; break
+    return spec, steps
+
+
+def package_histories(chk, n):
+    for s in range(n):
+        spec = pk_random_spec(chk.rng)
+        steps = pk_random_steps(chk.rng)
+        p = run_package(spec, steps)
+        chk.case(('package', json.dumps([spec, steps], sort_keys=True)), nontrivial=True,
+                 sample={'kind': spec['kind'], 'objects': len(spec['objects']), 'steps': steps[:4]} if s < 3 else None)
+        chk.count('package_history'); chk.count('package_kind_' + spec['kind'])
+        chk.count('package_with_objects' if spec['objects'] else 'package_without_objects')
+        if any(o['objects'] for o in spec['objects']): chk.count('package_with_objects_in_objects')
+        if not spec['styles']: chk.count('package_without_registered_style')
+        for st in steps: chk.count('package_step_' + st[0] + ('_parts_left_out' if st[0] == 'reload' and st[1] else ''))
+        if p.failed:
+            sig = p.failed[0]
+            if not any(k['sig'] == sig for k in chk.known) and not any(f['sig'] == sig for f in chk.failures):
+                try:
+                    spec, steps = shrink_package(spec, steps, sig)
+                    p = run_package(spec, steps) if run_package(spec, steps).failed else p
+                except Exception:
+                    pass
+            chk.fail(sig, {'package': {'spec': spec, 'steps': steps}}, p.failed[2])
+
+
 def targeted_histories():
     """scripted histories for the situations random search reaches rarely: a container of styles moved as a whole,
     a registered style that ends up outside the style sections, name clashes onto taken names.
@@ -801,7 +1196,14 @@ def run(chk, replay=None):
                 'detached parents (whole subtrees added, removed, re-added, moved; text nodes moved), styles added under '
                 'office:styles and office:automatic-styles, renamed, removed; xml() / metaxml() / save() interleaved; load() of the saved '
                 'package; after every step 12 document-level type queries (incl. same-named factories of different modules), 5 name lookups, 8 element-level queries, isInstanceOf; '
-                'non-trivial = history that changes the set of attached elements')
+                'every type that occurs in the tree asked for after every step, before the name lookups; packages: documents of 7 classes with embedded '
+                'objects (nested, inline office:document), rendered / written / loaded (optional parts left out) / edited / loaded again, the document and every '
+                'embedded object swept after every step; non-trivial = history that changes the set of attached elements')
+    if replay is not None and 'package' in replay['input']:
+        pk = replay['input']['package']
+        p = run_package(pk['spec'], pk['steps'])
+        print('replay: package %s -> %s' % (json.dumps(pk, sort_keys=True), p.failed))
+        return 1 if p.failed else 0
     if replay is not None and 'twodocs' in replay['input']:
         t = run_twodocs(replay['input']['twodocs'])
         print('replay: two documents, ops=%s -> %s' % (json.dumps(replay['input']['twodocs']), t.failed))
@@ -810,7 +1212,7 @@ def run(chk, replay=None):
         h = replay_history(replay['input']['ops'])
         print('replay: ops=%s -> %s' % (json.dumps(replay['input']['ops']), h.orc.failed))
         return 1 if h.orc.failed else 0
-    chk.prove(modules=['OdfModel.Props.C09', 'OdfModel.Props.C09Load'], drivers=['drv_domdoc'])
+    chk.prove(modules=['OdfModel.Props.C09', 'OdfModel.Props.C09Load', 'OdfModel.Props.C09Queries'], drivers=['drv_domdoc'])
     drv = chk.driver('drv_domdoc')
     thorough = chk.tier == 'thorough'
     nhist = 2000 if thorough else 420
@@ -834,6 +1236,7 @@ def run(chk, replay=None):
         if h.orc.failed:
             report(chk, h)
     twodocs_histories(chk, 1500 if thorough else 250)
+    package_histories(chk, 1000 if thorough else 160)
     for k, script in enumerate(targeted_histories()):
         h = History(chk.rng)
         h.prologue()
